@@ -851,6 +851,13 @@ func c02h(c *Ctx) {
 	// expression parser from outside the expression parsers passes (single = false, negated = false)
 	if be := c.Fn("parser.Parser.parseBooleanExpression"); be != nil {
 		inside := map[string]bool{"parseBooleanExpression": true, "parseRightSideExpression": true}
+		for _, root := range []string{"parser.Parser.parseBooleanExpression", "parser.Parser.parseRightSideExpression"} {
+			if rf := c.Fn(root); rf != nil {
+				for _, m := range c.unitOf(rf) {
+					inside[m.fn.Name()] = true // a private helper of the expression parsers (the nested group under its own name)
+				}
+			}
+		}
 		n := 0
 		for _, ci := range c.W.callsTo(be) {
 			caller := ci.Parent()
